@@ -186,8 +186,10 @@ PROPS = {
         "trusted_base": ["modelled: SendBlocksProofProcess::execute, SendTransactionsProofProcess::execute, check_block_hashes / check_tx_hashes, fetch tables, add_block acceptance"],
     },
     "C16": {
-        "ops": [("c02", "RunC02", {"quick": 60, "thorough": 1500}), ("c08", "RunC08", {"quick": 3, "thorough": 30})],
-        "rule": "op c08 (whole-client histories with a fork switch that rolls back and re-indexes): after every run get_transaction_with_header of every generated "
+        "ops": [("c02", "RunC02", {"quick": 60, "thorough": 1500}), ("c08", "RunC08", {"quick": 3, "thorough": 30}), ("px", "RunPx", {"quick": 400, "thorough": 8000})],
+        "rule": "op px (every writer of the maps get_transaction_with_header goes through - filter_block, add_fetched_tx, add_fetched_header, rollback_to_block - in generated "
+                "histories on a real RocksDB, the block reported for every transaction compared with Model/TxPairing.v after each operation; a mispairing with no height written "
+                "twice is class C16-pairing-wrong-without-height-reuse, excluded by theorem); op c08 (whole-client histories with a fork switch that rolls back and re-indexes): after every run get_transaction_with_header of every generated "
                 "transaction must name a block that contains it (class C16-transaction-paired-with-wrong-block); op c02 withheld-answer scenario; "
                 "same histories as C02: the fetch status machine (added / fetching / fetched / not_found) through the real RPCs, ticks, answers, rejections, disconnects; "
                 "after every history closing rounds with an honest proven peer must leave every requested hash fetched (on the chain) or reported missing (unknown)",
